@@ -270,6 +270,21 @@ class Printer:
                 self.w(" : ")
                 f = self.expr(e.a[2])
             return "(cond %d %s %s %s)" % (e.ln, c, t, f)
+        if k == 'iflet':
+            # if let (En::it = e) t else f     a = [en, it, e, t, f]; the guard and the expression at the `if` line's successors
+            e.ln = self.line
+            self.w("if let (")
+            gl = self.line
+            self.w("%s::%s = " % (e.a[0], e.a[1]))
+            x = self.expr(e.a[2])
+            self.w(")")
+            self.maybe_nl(0.3)
+            t = self.expr(e.a[3])
+            self.maybe_nl(0.3)
+            self.w("else")
+            self.maybe_nl(0.3)
+            f = self.expr(e.a[4])
+            return "(iflet %d %d %s %s %s %s %s)" % (e.ln, gl, e.a[0], e.a[1], x, t, f)
         if k == 'ass':
             l = self.expr(e.a[0])
             self.maybe_nl(0.15)
@@ -725,6 +740,7 @@ class Gen:
             opts.append(('block', 1))
             if self.enums:
                 opts.append(('match', 2))
+                opts.append(('iflet', 1))
             if t == 'int':
                 opts.append(('intstmt', 1))
             opts.append(('ass', 1))
@@ -996,6 +1012,12 @@ class Gen:
         m = N('match', s, gs, ty=t)
         self.matches.append((m, en, self.snapshot(), list(self.path)))
         return m
+
+    def e_iflet(self, t, d):
+        en = self.rng.choice(sorted(self.enums))
+        s = self.expr(('enum', en), max(d - 1, 0))
+        self.stat('iflet')
+        return N('iflet', en, self.rng.choice(self.enums[en]), s, self.block(t, d - 1, 'if'), self.block(t, d - 1, 'if'), ty=t)
 
     def e_intstmt(self, t, d):
         """while / for-in loops have type int"""
@@ -1717,8 +1739,11 @@ class Mutator:
 
     def _branches(self, a, b, t, rule, site, note):
         g, rng = self.g, self.rng
-        r = rng.below(3)
-        if r == 2 and g.enums:
+        r = rng.below(4)
+        if r == 3 and g.enums:
+            en = rng.choice(sorted(g.enums))
+            bad = N('iflet', en, rng.choice(g.enums[en]), g.expr(('enum', en), 0), N('seq', [a], ty=t), N('seq', [b], ty=t), ty=t)
+        elif r >= 2 and g.enums:
             # arms of a match
             en = rng.choice(sorted(g.enums))
             items = list(g.enums[en])
@@ -2060,7 +2085,7 @@ class Mutator:
 # (branch kinds, array elements, indices, qualifiers, redefinitions, constness of bindings, …).
 
 EXPR_KINDS = {'b', 'i', 'l', 'f', 'd', 'c', 's', 'id', 'ev', 'un', 'bin', 'sup', 'cond', 'ass', 'while', 'forin', 'call',
-              'fun', 'seq', 'attr', 'match', 'arr', 'deref', 'lc', 'tuple', 'proj', 'range', 'slice', 'pipe'}
+              'fun', 'seq', 'attr', 'match', 'arr', 'deref', 'lc', 'tuple', 'proj', 'range', 'slice', 'pipe', 'iflet'}
 
 
 def expr_slots(prog):
